@@ -25,7 +25,8 @@ def range_(*args):
     if step > 0:
         n = (stop - start + (step - 1)) // step if not isinstance(stop - start, int) else max(0, (stop - start + step - 1) // step)
     else:
-        raise Unsupported("symbolic range with negative step")
+        d = start - stop
+        n = (d + (-step - 1)) // (-step) if not isinstance(d, int) else max(0, (d - step - 1) // (-step))
     if isinstance(n, SymInt):
         if bool(n <= 0):
             return []
